@@ -341,14 +341,26 @@ def _run_group(g, r, sdir, log):
                     shard_args.append(a)
     results = []
 
+    text_ui = (g.kind == 'B')      # long concrete executions: JSON traces of failures run to gigabytes
+
     def one(extra):
         w = SOLVER_SLOTS.acquire(g.weight)
         try:
-            rc, out, dt = sh(chk + extra, sdir, g.timeout, log)
+            cmd = [a for a in chk if a not in ('--json-ui', '--trace')] if text_ui else chk
+            rc, out, dt = sh(cmd + extra, sdir, g.timeout, log)
         finally:
             SOLVER_SLOTS.release(w)
         if rc not in (0, 10):
             raise Infra("cbmc exited with %d, see %s" % (rc, log))
+        if text_ui:
+            res = []
+            for ln in out.decode('utf-8', 'replace').splitlines():
+                m = re.match(r'^\[([^\]\s]+)\] (.*): (SUCCESS|FAILURE|UNKNOWN|ERROR)\s*$', ln)
+                if m:
+                    res.append({'property': m.group(1), 'description': m.group(2), 'status': m.group(3)})
+            if not res:
+                raise Infra("no result section in cbmc output")
+            return res, dt
         doc = _parse_cbmc_json(out)
         res = None
         for x in doc:
@@ -411,7 +423,9 @@ def _run_group(g, r, sdir, log):
                         props.append((p['name'], p['description']))
         if not props:
             raise Infra("vacuity guard: no canary in the instrumented program")
-        cov = [gbc if a == gb2 else a for a in base]
+        # plain-text UI: with --json-ui CBMC attaches a full trace to every failing canary
+        # (gigabytes for long concrete executions); the text UI prints only the verdicts
+        cov = [gbc if a == gb2 else a for a in base if a != '--json-ui']
         for n, _d in props:
             cov += ['--property', n]
         if g.solver == 'cvc5' and g.cover_solver:
@@ -424,11 +438,13 @@ def _run_group(g, r, sdir, log):
         r.solver_s += dt
         if rc not in (0, 10):
             raise Infra("cbmc vacuity run exited with %d" % rc)
-        res = None
-        for x in _parse_cbmc_json(out):
-            if isinstance(x, dict) and 'result' in x:
-                res = x['result']
-        if res is None:
+        desc = dict(props)
+        res = []
+        for ln in out.decode('utf-8', 'replace').splitlines():
+            m = re.match(r'^\[([^\]]+)\] .*: (SUCCESS|FAILURE|UNKNOWN|ERROR)\s*$', ln)
+            if m and m.group(1) in desc:
+                res.append({'property': m.group(1), 'description': desc[m.group(1)], 'status': m.group(2)})
+        if not res:
             raise Infra("no result in vacuity run")
         end_ok, n_end, abort_ok = True, 0, False
         for p in res:
